@@ -827,7 +827,7 @@ void OPNMIDIplay::realTime_PatchChange(uint8_t channel, uint8_t patch)
 {
     if(static_cast<size_t>(channel) >= m_midiChannels.size())
         channel = channel % 16;
-    m_midiChannels[channel].patch = patch;
+    m_midiChannels[channel].patch = (patch > 127) ? 127 : patch;
 }
 
 void OPNMIDIplay::realTime_PitchBend(uint8_t channel, uint16_t pitch)
